@@ -61,7 +61,7 @@ impl<T: Dump> Dump for HashMap<String, T> {
 }
 impl<T: Dump> Dump for darling::util::SpannedValue<T> {
     fn dump(&self) -> Value {
-        json!({ "spanned": (**self).dump(), "span": span_json(self.span()) })
+        json!({ "spanned": (**self).dump() })
     }
 }
 impl<T: Dump, O: quote::ToTokens> Dump for darling::util::WithOriginal<T, O> {
@@ -81,7 +81,13 @@ impl<T: Dump> Dump for darling::Result<T> {
 macro_rules! dump_tokens {
     ($($t:ty),* $(,)?) => { $(impl Dump for $t { fn dump(&self) -> Value { json!({"tokens": canon_of(self)}) } })* };
 }
-dump_tokens!(syn::Ident, syn::Visibility, syn::Type, syn::Generics, syn::Expr, syn::Attribute, syn::Path, syn::TypeParamBound, syn::Field, syn::Variant, syn::WhereClause, syn::GenericParam, syn::Meta, syn::TypeParam, syn::LitStr);
+dump_tokens!(syn::Ident, syn::Visibility, syn::Type, syn::Expr, syn::Attribute, syn::Path, syn::TypeParamBound, syn::Field, syn::Variant, syn::WhereClause, syn::GenericParam, syn::Meta, syn::TypeParam, syn::LitStr);
+
+impl Dump for syn::Generics {
+    fn dump(&self) -> Value {
+        json!({ "tokens": canon_of(self), "where": self.where_clause.as_ref().map(canon_of).unwrap_or_default() })
+    }
+}
 
 impl<V: Dump, F: Dump> Dump for darling::ast::Data<V, F> {
     fn dump(&self) -> Value {
